@@ -96,10 +96,10 @@ def h_table(e1: str, e2: str, ss1: str, ss2: str, own2: bool, sel: int, sense_on
         ok = ok and [str(f) for f in ss.lemmas()] == [str(x.word().lemma()) for x in ss.senses()]
         # equality and hashing
         again = [x for x in w.senses() if x._id == s._id][0]
-        ok = ok and again == s and hash(again) == hash(s)
+        ok = ok and again == s and again.__hash__() == s.__hash__()
         ok = ok and not (s == wd) and not (wd == ss) and not (ss == s)
         ok = ok and wd == w.words()[[x._id for x in w.words()].index(wd._id)]
-        ok = ok and hash(wd) == hash(w.words()[[x._id for x in w.words()].index(wd._id)])
+        ok = ok and wd.__hash__() == w.words()[[x._id for x in w.words()].index(wd._id)].__hash__()
     for x in senses:
         for y in senses:
             ok = ok and ((x == y) == (x._id == y._id))
